@@ -261,3 +261,51 @@ Print Assumptions c04_flow_finished_only_at_total.
 Print Assumptions c04_flow_finish.
 Print Assumptions c04_from_request.
 Print Assumptions c04_flow_nonvacuous.
+
+(* ================================================================== the code's own arithmetic (translated fragments) *)
+(** The expression that sizes one Content-Length body write and the two guards that refuse an over-long write or direct-write
+    report are translated from src/body.rs / src/client/call.rs on every run (theories/Gen.v, FRAGMENTS of tools/rs2coq.py);
+    proofs/Gen_equiv_frag.v proves them equal to the statement's formulas for all arguments and to what the model computes.
+    A cap, an off-by-one or a weakened guard in the Rust source breaks these obligations. *)
+From Hoot Require Import Gen.
+From Hoot.proofs Require Import Gen_equiv_frag.
+Theorem c04_code_write_size : forall avail input_len left,
+  gen_sized_write_n avail input_len left = N.min (N.min avail input_len) left.
+Proof. exact gen_sized_write_n_spec. Qed.
+Theorem c04_code_write_is_model : forall w lft input cap,
+  w_mode w = SSized lft ->
+  exists w', writer_write w input cap = Ok (w', gen_sized_write_n cap (len input) lft,
+                                            take (gen_sized_write_n cap (len input) lft) input)
+             /\ w_mode w' = SSized (lft - gen_sized_write_n cap (len input) lft).
+Proof. exact writer_write_sized_gen. Qed.
+Theorem c04_code_overshoot_guard : forall input_len left, gen_write_overshoot input_len left = (left <? input_len).
+Proof. exact gen_write_overshoot_spec. Qed.
+Theorem c04_code_after_finish_guard : forall input_empty ended, gen_write_after_finish input_empty ended = negb input_empty && ended.
+Proof. exact gen_write_after_finish_spec. Qed.
+Theorem c04_code_direct_guard : forall amount left, gen_direct_overshoot amount left = (left <? amount).
+Proof. exact gen_direct_overshoot_spec. Qed.
+Theorem c04_code_guards_are_model : forall c c1 input cap,
+  analyze_request c = Ok c1 -> is_prelude (c_phase c1) = false -> is_body (c_phase c1) = true ->
+  call_write_body c input cap =
+  if gen_write_after_finish (match input with [] => true | _ => false end) (w_ended (c_writer c1))
+  then Err BodyContentAfterFinish
+  else if match left_to_send (c_writer c1) with Some l => gen_write_overshoot (len input) l | None => false end
+  then Err BodyLargerThanContentLength
+  else do r <- writer_write (c_writer c1) input cap;
+       let '(w, used, out) := r in Ok (set_writer c1 w, used, out).
+Proof. exact call_write_body_guards. Qed.
+Theorem c04_code_direct_is_model : forall c amount,
+  call_direct_write c amount =
+  match left_to_send (c_writer c) with
+  | Some l => if gen_direct_overshoot amount l then Err BodyLargerThanContentLength
+              else do w <- writer_direct (c_writer c) amount; Ok (set_writer c w)
+  | None => Err BodyIsChunked
+  end.
+Proof. exact call_direct_write_guard. Qed.
+Print Assumptions c04_code_write_size.
+Print Assumptions c04_code_write_is_model.
+Print Assumptions c04_code_overshoot_guard.
+Print Assumptions c04_code_after_finish_guard.
+Print Assumptions c04_code_direct_guard.
+Print Assumptions c04_code_guards_are_model.
+Print Assumptions c04_code_direct_is_model.
